@@ -49,7 +49,7 @@ WORDS = ["french", "english", "entry", "files", "about", "ab", "de", "fr", "en",
 LOCALIZED = ["about", "a-propos", "ueber", "user", "utilisateur", "benutzer", "search", "rechercher", "fr", "en", "id",
              "tietoja", "x", "édition"]
 PARAM_NAMES = ["id", "a", "b", "rest", "x"]
-QUERIES = ["", "", "a=1&b=2", "x=/fr/y", "q=fr?en"]
+QUERIES = ["", "", "a=1&b=2", "x=/fr/y", "q=fr?en", "tag=x&sort=asc&tag=y", "debug"]
 HASHES = ["", "", "top", "/fr", "a?b", "#top", "#/fr", "##x", "#"]
 
 
@@ -247,6 +247,10 @@ def corpus_overlap():
                     "intent": {"slashes": "trailing" if path.endswith("/") else "normal", "base": "root",
                                "kinds": [] if path == "/en" else ["localized"],
                                "overlap": "first-of-many"}})
+    # the fragment in browser form (window.location.hash keeps its '#') must not be doubled
+    c = dict(out[0])
+    c["hash"] = "#top"
+    out.insert(0, c)
     return out
 
 
